@@ -46,9 +46,76 @@ def make_consts(ctx, prog):
     return out
 
 
+def factor_inputs(ctx, prog, X, name, P):
+    """zeroth coefficients constructed from the factors of the factorisation the program uses
+    (contract stubs, see props/c08.py)"""
+    from . import c08
+    from .. import stubs
+    fac = [t for t in prog.tags if t.startswith('fac:')][0][4:]
+    M, N = prog.shape
+    for p in range(P):
+        tag = '%s_p%d' % (name, p)
+        if fac in ('qr', 'qr_full'):
+            Qf = c08.rot2(ctx, tag) if M == 2 else c08.rot3(ctx, tag)
+            if fac == 'qr_full':
+                z = np.empty((M - N, N), dtype=object)
+                z[...] = 0.0 if ctx.mode == 'float' else S.const(0)
+                Rf = np.concatenate([c08.upper(ctx, 'R' + tag, N, N), z], axis=0)
+                A0 = np.dot(Qf, Rf)
+                if ctx.mode == 'sym':
+                    stubs.register('qr', A0, (Qf, Rf))
+            elif N >= M:
+                Rsq = c08.upper(ctx, 'R' + tag, M, M)
+                A1 = np.dot(Qf, Rsq)
+                if ctx.mode == 'sym':
+                    stubs.register('qr', A1, (Qf, Rsq))
+                A0 = A1 if N == M else np.concatenate([A1, c08.V(ctx, 'W' + tag, (M, N - M))], axis=1)
+            else:
+                Rr = c08.upper(ctx, 'R' + tag, N, N)
+                A0 = np.dot(Qf[:, :N], Rr)
+                if ctx.mode == 'sym':
+                    stubs.register('qr', A0, (Qf[:, :N], Rr))
+        elif fac == 'cholesky':
+            L0 = np.empty((M, M), dtype=object)
+            for i in range(M):
+                for j in range(M):
+                    L0[i, j] = (0.0 if ctx.mode == 'float' else S.const(0)) if j > i else ctx.var('L%s[%d,%d]' % (tag, i, j), pos=(i == j))
+            A0 = np.dot(L0, L0.T)
+            if ctx.mode == 'sym':
+                stubs.register('cholesky', A0, L0)
+        elif fac == 'eigh':
+            Q0 = c08.rot2(ctx, tag)
+            lam = [ctx.var('lam%s_%d' % (tag, i)) for i in range(M)]
+            for i in range(1, M):
+                ctx.assume(lam[i] - lam[i - 1] > 1)
+            Lm = np.empty((M, M), dtype=object)
+            for i in range(M):
+                for j in range(M):
+                    Lm[i, j] = lam[i] if i == j else (0.0 if ctx.mode == 'float' else S.const(0))
+            A0 = np.dot(np.dot(Q0, Lm), Q0.T)
+            if ctx.mode == 'sym':
+                stubs.register('eigh', A0, (np.array(lam, dtype=object), Q0))
+        else:
+            raise KeyError(fac)
+        X[0, p] = A0
+    return X
+
+
 def make_curve(ctx, prog, name, D, P):
     arg = O.Arg('utpm', prog.shape, prog.dom)
     X = O.make_input(ctx, arg, name, D, P)
+    if 'symmetric' in prog.tags:
+        n = prog.shape[0]
+        for d in range(D):
+            for p in range(P):
+                for i in range(n):
+                    for j in range(i):
+                        X[d, p, i, j] = X[d, p, j, i]
+    if any(t.startswith('fac:') for t in prog.tags):
+        before = set(ctx.var_order) if ctx.mode == 'sym' else None
+        X = factor_inputs(ctx, prog, X, name, P)
+        if ctx.mode == 'sym':
+            ctx.fac_params = [n for n in ctx.var_order if n not in before]
     if 'halfangle' in prog.tags:
         # x0 = 2 atan(u): tan, sin, cos of x0 are rational in u (DESIGN 2.5(4))
         import math
@@ -146,11 +213,53 @@ def h_prog(ctx, pname, D, P):
     V = np.empty(X.shape, dtype=object)
     for idx in np.ndindex(*X.shape):
         V[idx] = ctx.var('v%s' % list(idx))
+    if 'symmetric' in prog.tags:
+        n = prog.shape[0]
+        for d in range(D):
+            for p in range(P):
+                for i in range(n):
+                    for j in range(i):
+                        V[d, p, i, j] = V[d, p, j, i]
+    fac = any(t.startswith('fac:') for t in prog.tags)
+    pseed = {}
+    if fac:
+        # the zeroth coefficient is a function of the factor parameters theta: the direction of
+        # order 0 is (dA0/dtheta) dtheta with a free symbolic dtheta (the parametrisation is a
+        # local diffeomorphism, so this ranges over all directions)
+        if ctx.mode == 'sym':
+            for nm in ctx.fac_params:
+                pseed[nm] = ctx.var('dt_' + nm)
+            flat0 = [S.lift(e) for e in X[0].ravel()]
+            V[0] = np.array(diff.d(flat0, pseed), dtype=object).reshape(X[0].shape)
+        else:
+            from ..engine import Ctx as _Ctx
+            h0 = 1e-6
+
+            class _Shift(dict):
+                def __init__(self, base, sgn):
+                    self.base, self.sgn = base, sgn
+
+                def __contains__(self, k):
+                    return k in self.base
+
+                def __getitem__(self, k):
+                    v = float(self.base[k])
+                    if ('dt_' + k) in self.base:
+                        v += self.sgn * h0 * float(self.base['dt_' + k])
+                    return v
+
+            def a0(sgn):
+                sub = _Ctx('float', assignment=_Shift(ctx.assignment, sgn))
+                Z = np.empty((1, P) + prog.shape, dtype=object)
+                Z = factor_inputs(sub, prog, Z, 'x', P)
+                return np.array(Z[0].tolist(), dtype=float)
+            V[0] = (a0(+1) - a0(-1)) / (2 * h0)
     # directional derivative of the forward coefficients
     if ctx.mode == 'sym':
-        seed = {}
+        seed = dict(pseed)
         for idx in np.ndindex(*X.shape):
-            seed[X[idx].a[0]] = V[idx]
+            if X[idx].op == 'var':
+                seed[X[idx].a[0]] = V[idx]
         if 'halfangle' in prog.tags:
             for idx in np.ndindex(*X[0].shape):
                 u = ctx.vars['u%s' % list(idx)]
